@@ -14,7 +14,7 @@ from .explorer import explore, prove, EX, Unsupported
 
 PID = "C13"
 _G = {}
-KINDS = ["refuse", "eof", "reset", "garbage_eof", "packet_eof", "partial_eof"]
+KINDS = ["refuse", "eof", "reset", "garbage_eof", "packet_eof", "partial_eof", "overlong_line"]
 GARBAGE = {"ebyte": bytes(range(13)), "actisense": b"not a frame\r\n", "yacht": b"not a frame\r\n", "waveshare": bytes([1, 2, 3, 0xAA, 4, 5])}
 HORIZON = 90.0
 
@@ -49,7 +49,10 @@ def scenario(R, N, kind, F, with_send_fault, forced=None):
                 r.feed_eof()
             elif beh == "reset":
                 r.set_exception(ConnectionResetError("reset by peer"))
-            elif beh == "garbage_eof":
+            elif beh == "overlong_line" and kind in ("actisense", "yacht"):
+                # more than the stream reader's 64 KiB limit without a line terminator, connection left open: the line read fails
+                r.feed_data(b"x" * 70000)
+            elif beh in ("garbage_eof", "overlong_line"):
                 r.feed_data(GARBAGE[kind])
                 r.feed_eof()
             elif beh == "packet_eof":
